@@ -437,6 +437,42 @@ func checkStreamCoarse(stream []byte, max int) (string, int, string) {
 
 func shortKey(r result) string { return fmt.Sprintf("%d packets -> %s", len(r.pkts), r.class) }
 
+// an announced length above the maximum whose payload keeps arriving without ever completing:
+// the result must not depend on the read split and the reader must stop buffering
+func hostileFamily(maxes []int) seq.Family {
+	return seq.Family{
+		Name: "incomplete-oversized-frames",
+		Run: func(ctx *seq.Ctx) {
+			for _, max := range maxes {
+				for _, declared := range []uint64{uint64(max) + 1, 1 << 20, 1 << 40} {
+					for _, sent := range []int{0, max, max + 30, max + 31, max + 32, max + 33, 4*max + 100, 200 << 10} {
+						if uint64(sent) >= declared {
+							continue
+						}
+						for _, lead := range []bool{false, true} {
+							var stream []byte
+							if lead {
+								stream = fr(1, 1, 2, true, false, 1)
+							}
+							stream = append(stream, 0x05, 0x01, 0x02) // kind 2 done, stream 1, message 2
+							stream = refwire.PutUvarint(stream, declared)
+							stream = append(stream, make([]byte, sent)...)
+							msg, runs, class := checkStreamCoarse(stream, max)
+							ctx.Count(1, runs, 1)
+							if msg != "" {
+								ctx.Fail(fmt.Sprintf("%s (declared %d bytes, %d sent, leading frame %v)", msg, declared, sent, lead), replayIn{Hex: seq.Hex(stream[:min(len(stream), 64)]), Max: max})
+								return
+							}
+							ctx.Class(class)
+						}
+					}
+				}
+			}
+			ctx.Sample(map[string]any{"max": maxes[0], "declared": "2^40", "payload_sent": 200 << 10})
+		},
+	}
+}
+
 // zero-length reads: 99 are tolerated, 100 in a row is io.ErrNoProgress
 func zeroFamily() seq.Family {
 	return seq.Family{
@@ -467,6 +503,7 @@ func families(tier string) []seq.Family {
 			seqFamily("frame-sequences<=3/max4", alphabetA, 0, 3, []int{4}, 14, false),
 			seqFamily("runs-of-6-small-frames/max4", func(int) []sym { return alphabetB() }, 6, 6, []int{4}, 0, false),
 			longFamily([]int{4096 - 31, 4096, 70000}),
+			hostileFamily([]int{4, 1000}),
 			zeroFamily(),
 		}
 	}
@@ -475,6 +512,7 @@ func families(tier string) []seq.Family {
 		seqFamily("frame-sequences=4/max4", alphabetA, 4, 4, []int{4}, 12, false),
 		seqFamily("runs-of-5..8-small-frames/max1,4,8", func(int) []sym { return alphabetB() }, 5, 8, []int{1, 4, 8}, 0, true),
 		longFamily([]int{4096 - 32, 4096 - 31, 4096 - 30, 4096, 70000, 4 << 20}),
+		hostileFamily([]int{1, 4, 1000, 65536}),
 		zeroFamily(),
 	}
 }
